@@ -30,7 +30,7 @@ def _case(draw, worlds, all_boundaries):
             'cs': list(range(T + 1)) if all_boundaries else sorted(set(draw(st.lists(st.integers(0, T), min_size=1, max_size=2)))),
             'compute_inverses': draw(st.booleans()), 'include_factors': draw(st.sampled_from([True, True, True, False])),
             'perturb_fresh': draw(st.booleans()), 'reverse_layers': draw(st.booleans()),
-            'schedule': draw(st.lists(st.integers(0, 63), max_size=150)), 'flip': draw(st.booleans())}
+            'schedule': draw(st.lists(st.integers(0, 63), max_size=150)), 'flip': draw(st.booleans()), 'rollback_live': draw(st.booleans())}
     case.update(draw(placement(W, method, prediv)))
     return case
 
@@ -155,7 +155,7 @@ class C09(Prop):
             # (e) rolling back IN PLACE (same preconditioner object, weights put back) must behave like resuming in a fresh one
             if 1 <= c < T and inc:       # c = 0: a state without factors does not overwrite the factors of a live object (outside the statement)
                 rb, err = run([train(t) for t in range(c)] + [{'op': 'snapshot'}] + [train(t) for t in range(c, T)]
-                              + [{'op': 'rollback', 'compute_inverses': ci}] + [train(t) for t in range(c, T)])
+                              + [{'op': 'rollback', 'compute_inverses': ci, 'live': bool(case.get('rollback_live'))}] + [train(t) for t in range(c, T)])
                 if err:
                     return violation(f'{where}: rollback into the live preconditioner failed: {err}', 'rollback-failed', labels=labels)
                 for rank in range(len(res)):
